@@ -198,7 +198,7 @@ def run(ctx):
     ctx.assumptions = ['an answer arriving exactly socket_timeout after the probe is outside the statement (the model and the code both treat it as too late)']
     proved = ctx.prove('C16', THEOREMS)
     rng = ctx.rng
-    n = 1200 if ctx.thorough else 200
+    n = 8000 if ctx.thorough else 200
     cases = []
     for i in range(n):
         interval, timeout, arrivals, delays, horizon, pause_at, kinds = gen(rng)
